@@ -8,6 +8,7 @@ import Driver.DispFam
 import Driver.ValidFam
 import Driver.StyleFam
 import Driver.TrimeshFam
+import Driver.PolyFam
 
 open Driver
 
@@ -30,6 +31,7 @@ def stepLine (st : St) (line : String) : St × String :=
   | "valid" :: _ => (st, ValidFam.step (line.drop 6).toString)
   | "style" :: _ => (st, StyleFam.step (line.drop 6).toString)
   | "trimesh" :: _ => (st, TrimeshFam.step (line.drop 8).toString)
+  | "poly" :: _ => (st, PolyFam.step (line.drop 5).toString)
   | "disp" :: _ => (st, DispFam.step (line.drop 5).toString)
   | _ => (st, "bad-family")
 
